@@ -59,6 +59,9 @@ def gen_config(rng, run_index, j):
     if kind != "tree" and rng.random() < 0.25:
         cfg["model"] = "riverlabel"      # the real RiverWrapper around a label-predicting model (one-hot outputs)
         cfg["dynamic"] = rng.random() < 0.4
+    if kind != "tree" and cfg.get("explainer") in ("pfi", "sage") and rng.random() < 0.2:
+        cfg["model"] = "river_bound"     # a real river classifier passed as `clf.predict_one`
+        cfg["dynamic"] = rng.random() < 0.3
     if cfg.get("explainer") and kind != "tree" and rng.random() < 0.25:
         cfg["default_storage"] = True       # documented defaults: the explainer creates its own storage and imputer
     cfg.setdefault("dynamic", rng.random() < 0.6)
